@@ -618,7 +618,7 @@ func VerifC20_Reconcile() {
 	// the second controller: started through Reconcile, never touched again
 	var other *parentController
 	otherExp := map[string]int{}
-	starts, stops, createErrors, syncErrors := 0, 0, 0, 0
+	starts, stops, createErrors, syncErrors, syncErrorsOptional := 0, 0, 0, 0, 0
 	if bystander {
 		cl.ccs["other"] = verifC20Valid("other", 0)
 		_, err := mc.Reconcile(ctx, reconcile.Request{NamespacedName: types.NamespacedName{Name: "other"}})
@@ -667,6 +667,7 @@ func VerifC20_Reconcile() {
 		wantErr := false
 		kept := false
 		crdEarlyReturn := false
+		noopOnRunning := false
 		switch {
 		case kinds[i] == verifC20EvAPIError:
 			rt.Cover("api-error")
@@ -684,7 +685,16 @@ func VerifC20_Reconcile() {
 		case cl.crd != verifC20CRDStatus:
 			rt.Cover("crd-without-status")
 			wantErr = cl.crd == verifC20CRDMissing
-			if !wantErr {
+			if g.running >= 0 && g.stored == g.running {
+				// a no-op update of an instance that already runs from this very
+				// spec: nothing has to be done, and nothing has to be looked up -
+				// whether the broken CRD is noticed (error / warning event) on this
+				// occasion is left open
+				noopOnRunning = true
+				if !wantErr {
+					syncErrorsOptional++
+				}
+			} else if !wantErr {
 				syncErrors++ // the warning event about the missing subresource
 			}
 			kept = true
@@ -701,6 +711,7 @@ func VerifC20_Reconcile() {
 		case g.stored == g.running:
 			rt.Cover("noop-update")
 			kept = true
+			noopOnRunning = true
 		default:
 			if g.running >= 0 {
 				rt.Cover("spec-change-restarts")
@@ -726,11 +737,20 @@ func VerifC20_Reconcile() {
 		rt.Observe("error", err != nil)
 		rt.Observe("controllers", len(mc.parentControllers))
 		rt.Observe("subscriptions", verifC20Sum(f.VerifRefCounts()))
-		rt.Assert((err != nil) == wantErr, "reconcile/error-iff-cannot-start")
+		if noopOnRunning && wantErr {
+			// (see above: noticing the broken CRD on a no-op is optional)
+			rt.Cover("noop-while-crd-missing")
+		} else {
+			rt.Assert((err != nil) == wantErr, "reconcile/error-iff-cannot-start")
+		}
 		if kinds[i] == verifC20EvAPIError {
 			rt.Assert(len(cl.crdGets) == crdGets, "api-error/crd-looked-up")
 		} else if g.stored != -1 {
-			rt.Assert(len(cl.crdGets) == crdGets+1, "reconcile/crd-not-looked-up-once")
+			if noopOnRunning {
+				rt.Assert(len(cl.crdGets) <= crdGets+1, "reconcile/crd-looked-up-more-than-once")
+			} else {
+				rt.Assert(len(cl.crdGets) == crdGets+1, "reconcile/crd-not-looked-up-once")
+			}
 			wantCRD := "things.ex.com"
 			if g.stored == 3 {
 				wantCRD = "widgets.apps.ex.com"
@@ -814,7 +834,8 @@ func VerifC20_Reconcile() {
 		rt.Assert(rec.Count(events.ReasonStarted) == starts, "events/started")
 		rt.Assert(rec.Count(events.ReasonStopped) == stops, "events/stopped")
 		rt.Assert(rec.Count(events.ReasonCreateError) == createErrors, "events/create-error")
-		rt.Assert(rec.Count(events.ReasonSyncError) == syncErrors, "events/sync-error")
+		nse := rec.Count(events.ReasonSyncError)
+		rt.Assert(nse >= syncErrors && nse <= syncErrors+syncErrorsOptional, "events/sync-error")
 		if verifC20Failed {
 			return
 		}
